@@ -5,17 +5,18 @@ import Driver.GenSup
 namespace Drv
 open Lean IGVerif
 
-inductive Rule | unbalanced | mixedOps | typeMix | twoPairs | duplicate | nonNesting | emptyOperand | noComponent
+inductive Rule | unbalanced | mixedOps | mixedNested | typeMix | twoPairs | duplicate | nonNesting | emptyOperand | noComponent
   deriving Repr, DecidableEq, Inhabited
 
 def Rule.name : Rule → String
-  | .unbalanced => "unbalanced" | .mixedOps => "mixed-operators" | .typeMix => "type-mix" | .twoPairs => "two-pairs"
+  | .unbalanced => "unbalanced" | .mixedOps => "mixed-operators" | .mixedNested => "mixed-operators-between-nested-statements" | .typeMix => "type-mix" | .twoPairs => "two-pairs"
   | .duplicate => "duplicate" | .nonNesting => "braces-on-non-nesting" | .emptyOperand => "empty-operand"
   | .noComponent => "no-component"
 
 def Rule.code : Rule → String
   | .unbalanced => "IMBALANCED_PARENTHESES"
   | .mixedOps => "INVALID_LOGICAL_OPERATOR_COMBINATIONS"
+  | .mixedNested => "INVALID_LOGICAL_OPERATOR_COMBINATIONS"
   | .typeMix => "INVALID_TYPE_COMBINATIONS_IN_NESTED_STATEMENT_COMBINATIONS"
   | .twoPairs => "MULTIPLE_COMPONENT_PAIRS_ON_NESTING_LEVEL"
   | .duplicate => "DUPLICATE_COMPONENT_ENTRIES"
@@ -23,13 +24,15 @@ def Rule.code : Rule → String
   | .emptyOperand => "EMPTY_LEAF_VALUE"
   | .noComponent => "EMPTY STATEMENT"
 
-def Rule.all : List Rule := [.unbalanced, .mixedOps, .typeMix, .twoPairs, .duplicate, .nonNesting, .emptyOperand]
+def Rule.all : List Rule := [.unbalanced, .mixedOps, .mixedNested, .typeMix, .twoPairs, .duplicate, .nonNesting, .emptyOperand]
 
 /-- text that breaks the rule when inserted among the parts of a statement -/
 def Rule.plant (r : Rule) (k : Nat) : String :=
   match r with
   | .unbalanced => #["(", ")", "{", "Cex(u", "M(v))", "}"].getD (k % 6) "("
   | .mixedOps => #["M((ma [AND] mb [OR] mc))", "F((fa [XOR] fb [AND] fc))", "Cex(((xa [OR] xb) [AND] xc [XOR] xd))"].getD (k % 3) ""
+  | .mixedNested => #["O{A(ma) I(mb)} [OR] O{A(mc) I(md)} [AND] O{A(me) I(mf)}", "Cex{A(ma) I(mb)} [AND] Cex{A(mc) I(md)} [XOR] Cex{A(me) I(mf)}",
+                      "O{A(ma) I(mb)} [XOR] O{A(mc) I(md)} [OR] O{A(me) I(mf)}"].getD (k % 3) ""
   | .typeMix => #["Cac{Cac{A(ta) I(tb)} [AND] Bdir{A(tc) I(td)}}", "Cex{Cex{A(ta) I(tb)} [XOR] Cac{A(tc) I(td)}}",
                   "Bdir{Bdir{A(ta)} [OR] Bind{I(tb)}}"].getD (k % 3) ""
   | .twoPairs => "{M(pa) [XOR] M(pb)} {F(pc) [OR] F(pd)}"
